@@ -219,11 +219,13 @@ fn text_checks(rep: &mut Report, orc: &mut Oracle, rng: &mut Rng, m: &StMoc, cas
           // character-level tie with Model/AsciiCodec.v
           rep.evaluations += 1;
           rep.count("ascii2-writer-exact");
-          let req = format!("ASC2W t 64 s 64 116 115 {} {} {} {} {}", m.dt, m.ds, fold.map(|x| x.to_string()).unwrap_or("-".to_string()), use_len as u8, m.wire());
+          let req = match labels {
+            None => format!("ASC2W t 64 s 64 116 115 {} {} {} {} {}", m.dt, m.ds, fold.map(|x| x.to_string()).unwrap_or("-".to_string()), use_len as u8, m.wire()),
+            Some((lt, ls)) => format!("ASC2WL t 64 s 64 116 115 {} {} {} {} {} {} {}", m.dt, m.ds, lt, ls, fold.map(|x| x.to_string()).unwrap_or("-".to_string()), use_len as u8, m.wire()),
+          };
           let model = orc.ask(&req);
           let model_hex = model.split_whitespace().nth(1).unwrap_or("").to_string();
-          // (the model writes every element at the depths of the ST-MOC: not comparable when the elements are labelled shallower)
-          if labels.is_none() && (!model.starts_with("OK") || asciix::hex(s1.as_bytes()) != model_hex) {
+          if !model.starts_with("OK") || asciix::hex(s1.as_bytes()) != model_hex {
             rep.corr_break("moc2d_to_ascii_ivoa writes other characters than the character-level model", &format!("{} # {}", req, shown), &format!("{:?}", s1), &model, "src/deser/ascii.rs moc2d_to_ascii_ivoa == Model/AsciiCodec.v st_to_ascii (C11_ascii_st_roundtrip)");
           }
           asciix::compare_reader_2d(rep, orc, &s1, "written");
@@ -255,10 +257,13 @@ fn text_checks(rep: &mut Report, orc: &mut Oracle, rng: &mut Rng, m: &StMoc, cas
     if let Ok(Ok((_, s1, _))) = &r {
       rep.evaluations += 1;
       rep.count("json2-writer-exact");
-      let req = format!("JSON2W {} {} {} {}", m.dt, m.ds, fold.map(|x| x.to_string()).unwrap_or("-".to_string()), m.wire());
+      let req = match labels {
+        None => format!("JSON2W {} {} {} {}", m.dt, m.ds, fold.map(|x| x.to_string()).unwrap_or("-".to_string()), m.wire()),
+        Some((lt, ls)) => format!("JSON2WL {} {} {} {} {} {}", m.dt, m.ds, lt, ls, fold.map(|x| x.to_string()).unwrap_or("-".to_string()), m.wire()),
+      };
       let model = orc.ask(&req);
       let model_hex = model.split_whitespace().nth(1).unwrap_or("").to_string();
-      if labels.is_none() && (!model.starts_with("OK") || asciix::hex(s1.as_bytes()) != model_hex) {
+      if !model.starts_with("OK") || asciix::hex(s1.as_bytes()) != model_hex {
         rep.corr_break("cellmoc2d_to_json_aladin writes other characters than the character-level model", &format!("{} # {}", req, shown), &format!("{:?}", s1), &model.chars().take(300).collect::<String>(), "src/deser/json.rs cellmoc2d_to_json_aladin == Model/JsonCodec.v st_to_json");
       }
       asciix::compare_reader_json_2d(rep, orc, s1, "written");
